@@ -3,10 +3,10 @@ import EupsModel.Lemmas.SetupForward
 namespace EupsModel.Setup
 
 theorem canon_deps_rank (db : Db) (rank : Name → Nat) (hdag : NameDag db rank) (d : Decl) (hc : Canon db d)
-    (exact : Bool) : ∀ n o j v x t, Act.dep n o j v x t ∈ d.actions exact → rank n < rank d.name := by
-  intro n o j v x t hm
+    (exact : Bool) : ∀ n o j v x t kl, Act.dep n o j v x t kl ∈ d.actions exact → rank n < rank d.name := by
+  intro n o j v x t kl hm
   obtain ⟨g, hg⟩ := mem_actions d exact _ hm
-  exact hdag d (lookup_some db d.prod d hc).1 g n o j v x t hg
+  exact hdag d (lookup_some db d.prod d hc).1 g n o j v x t kl hg
 
 @[simp] theorem record_rec?_same (d : Decl) (r : Option VroEnt) (s : St) : (record d r s).env.rec? d.name = some d.ver := by
   simp [record, Env.rec?, aget_aset_same]
@@ -276,12 +276,12 @@ theorem setup_recOK (cfg : Cfg) (rank : Name → Nat) (hdag : NameDag cfg.db ran
       cases fwd with
       | true =>
         rw [setup_succ_true] at h
-        cases hres : resolve cfg.db cfg.keep s.already n ver vexpr depth vro.length vro with
+        cases hres : resolve cfg.db cfg.path cfg.keep s.already n ver vexpr depth vro.length vro with
         | none => rw [hres] at h; simp [Res.st?] at h; subst h; exact ha
         | error => rw [hres] at h; simp [Res.st?] at h; subst h; exact ha
         | found d reason =>
           rw [hres] at h
-          obtain ⟨hc, _⟩ := resolve_spec cfg.db cfg.keep s.already ha n ver vexpr depth _ _ _ _ hres
+          obtain ⟨hc, _⟩ := resolve_spec cfg.db cfg.path cfg.keep s.already ha n ver vexpr depth _ _ _ _ hres
           exact install_already cfg rank hdag (setup cfg k) ih depth noRec vro d reason hc _ s'
             (register_already cfg depth d reason s ha hc) h
       | false =>
@@ -295,12 +295,12 @@ theorem setup_recOK (cfg : Cfg) (rank : Name → Nat) (hdag : NameDag cfg.db ran
       cases fwd with
       | true =>
         rw [setup_succ_true] at h
-        cases hres : resolve cfg.db cfg.keep s.already n ver vexpr depth vro.length vro with
+        cases hres : resolve cfg.db cfg.path cfg.keep s.already n ver vexpr depth vro.length vro with
         | none => rw [hres] at h; cases h
         | error => rw [hres] at h; cases h
         | found d reason =>
           rw [hres] at h
-          obtain ⟨hc, hname⟩ := resolve_spec cfg.db cfg.keep s.already ha n ver vexpr depth _ _ _ _ hres
+          obtain ⟨hc, hname⟩ := resolve_spec cfg.db cfg.path cfg.keep s.already ha n ver vexpr depth _ _ _ _ hres
           have := install_frame cfg rank hdag (setup cfg k) ih depth noRec vro d reason hc _ s'
             (register_already cfg depth d reason s ha hc) h m (by rw [hname]; exact hm) (by rw [hname]; exact hr)
           rw [this, register_env]
@@ -323,12 +323,12 @@ theorem setup_recOK (cfg : Cfg) (rank : Name → Nat) (hdag : NameDag cfg.db ran
         exact ⟨h1, hw.of_sub h2⟩
       | true =>
         rw [setup_succ_true] at h
-        cases hres : resolve cfg.db cfg.keep s.already n ver vexpr depth vro.length vro with
+        cases hres : resolve cfg.db cfg.path cfg.keep s.already n ver vexpr depth vro.length vro with
         | none => rw [hres] at h; cases h
         | error => rw [hres] at h; cases h
         | found d reason =>
           rw [hres] at h
-          obtain ⟨hc, _⟩ := resolve_spec cfg.db cfg.keep s.already ha n ver vexpr depth _ _ _ _ hres
+          obtain ⟨hc, _⟩ := resolve_spec cfg.db cfg.path cfg.keep s.already ha n ver vexpr depth _ _ _ _ hres
           exact install_spec cfg rank hdag (setup cfg k) ih depth noRec vro d reason hc _ s'
             (register_already cfg depth d reason s ha hc) (by rw [register_env]; exact hw)
             (by rw [register_env]; exact hn) h
@@ -338,8 +338,9 @@ end EupsModel.Setup
 namespace EupsModel.Setup
 
 /-- at depth 0 an explicitly named version is the one resolution returns (or nothing) -/
-theorem resolve_explicit (db : Db) (keep : Bool) (al : Already) (name : Name) (v : Ver) (vexpr : Option VExpr) :
-    ∀ k vro d r, resolve db keep al name (some (.explicit v)) vexpr 0 k vro = .found d r → d.ver = v := by
+theorem resolve_explicit (db : Db) (path : List Nat) (keep : Bool) (al : Already) (name : Name) (v : VStr)
+    (vexpr : Option VExpr) :
+    ∀ k vro d r, resolve db path keep al name (some (.explicit v)) vexpr 0 k vro = .found d r → d.ver.1 = v := by
   intro k
   induction k with
   | zero => intro vro d r h; simp [resolve] at h
@@ -400,16 +401,16 @@ namespace EupsModel.Setup
 def nameDagB (db : Db) (rank : Name → Nat) : Bool :=
   db.decls.all fun d => d.table.all fun ga =>
     match ga.2 with
-    | .dep n _ _ _ _ _ => decide (rank n < rank d.name)
+    | .dep n _ _ _ _ _ _ => decide (rank n < rank d.name)
     | _ => true
 
 theorem nameDag_of_check (db : Db) (rank : Name → Nat) (h : nameDagB db rank = true) : NameDag db rank := by
-  intro d hd g n o j v x t hg
+  intro d hd g n o j v x t kl hg
   unfold nameDagB at h
   rw [List.all_eq_true] at h
   have h1 := h d hd
   rw [List.all_eq_true] at h1
-  have h2 := h1 (g, Act.dep n o j v x t) hg
+  have h2 := h1 (g, Act.dep n o j v x t kl) hg
   simpa using h2
 
 end EupsModel.Setup
@@ -424,8 +425,8 @@ theorem acts_ne_notFound (rec : Rec) (cfg : Cfg) (fwd : Bool) (depth : Nat) (noR
   | nil => intro s s'; simp [acts]
   | cons a rest ih =>
     intro s s'
-    by_cases hdep : ∃ n o j v x t, a = .dep n o j v x t
-    · obtain ⟨n, o, j, v, x, t, rfl⟩ := hdep
+    by_cases hdep : ∃ n o j v x t kl, a = .dep n o j v x t kl
+    · obtain ⟨n, o, j, v, x, t, kl, rfl⟩ := hdep
       simp only [acts]
       split
       · exact ih s s'
@@ -438,7 +439,7 @@ theorem acts_ne_notFound (rec : Rec) (cfg : Cfg) (fwd : Bool) (depth : Nat) (noR
         · split
           · simp
           · exact ih _ s'
-    · have hnd : ∀ n o j v x t, a ≠ .dep n o j v x t := fun n o j v x t e => hdep ⟨n, o, j, v, x, t, e⟩
+    · have hnd : ∀ n o j v x t kl, a ≠ .dep n o j v x t kl := fun n o j v x t kl e => hdep ⟨n, o, j, v, x, t, kl, e⟩
       rw [acts_cons_nondep rec cfg fwd depth noRec vro d a rest s hnd]
       exact ih _ s'
 
@@ -457,7 +458,7 @@ theorem setup_notFound_unchanged (cfg : Cfg) (fuel : Nat) (fwd : Bool) (depth : 
       | some d => rw [hsp] at h; exact absurd h (acts_ne_notFound _ _ _ _ _ _ _ _ _ _)
     | true =>
       rw [setup_succ_true] at h
-      cases hres : resolve cfg.db cfg.keep s.already n ver vexpr depth vro.length vro with
+      cases hres : resolve cfg.db cfg.path cfg.keep s.already n ver vexpr depth vro.length vro with
       | none => rw [hres] at h; simp at h; exact h.symm
       | error => rw [hres] at h; cases h
       | found d reason =>
